@@ -280,6 +280,64 @@ type hist struct {
 	known map[string][]uuid.UUID // user/col -> ids inserted so far (for deliberate re-inserts)
 	seq   int
 	big   bool
+	root  string
+	// idle timers of the shard manager (substituted through hook H3) and the shards that are loaded
+	tmu    sync.Mutex
+	timers []*time.Timer
+	open   map[any]bool
+}
+
+func (h *hist) installHooks() {
+	h.open = map[any]bool{}
+	cluster.VerifTimer = func(dir string, t *time.Timer) *time.Timer {
+		t.Stop()
+		nt := time.NewTimer(24 * time.Hour)
+		h.tmu.Lock()
+		h.timers = append(h.timers, nt)
+		h.tmu.Unlock()
+		return nt
+	}
+	cluster.VerifYield = func(label string, key any) {
+		h.tmu.Lock()
+		switch label {
+		case "ev.opened":
+			h.open[key] = true
+		case "ev.closed":
+			delete(h.open, key)
+		}
+		h.tmu.Unlock()
+	}
+}
+
+// unloadAll fires the idle timers until every loaded shard is closed.
+func (h *hist) unloadAll() error {
+	deadline := time.Now().Add(10 * time.Second)
+	for round := 0; ; round++ {
+		if round%50 == 0 {
+			// (a cleanup goroutine that is re-arming its timer swallows a firing: fire again)
+			h.tmu.Lock()
+			ts := append([]*time.Timer{}, h.timers...)
+			h.tmu.Unlock()
+			for _, t := range ts {
+				t.Reset(0)
+			}
+		}
+		h.tmu.Lock()
+		n := len(h.open)
+		h.tmu.Unlock()
+		if n == 0 {
+			break
+		}
+		if time.Now().After(deadline) {
+			return fmt.Errorf("unload: %d shards still open after 10 s", n)
+		}
+		time.Sleep(time.Millisecond)
+	}
+	time.Sleep(5 * time.Millisecond)
+	h.tmu.Lock()
+	h.timers = nil
+	h.tmu.Unlock()
+	return nil
 }
 
 var colPool = []string{"c1", "c2", "c3", "c4"}
@@ -417,18 +475,22 @@ func RunE2E(tw *trace.Writer, o E2EOpts) error {
 		}
 		host := fmt.Sprintf("vh%d", hi)
 		port := 9000 + hi
-		node, err := cluster.NewNode(cluster.ClusterNodeConfig{
-			RootDir: root,
-			Servers: []string{fmt.Sprintf("%s:%d", host, port)},
-			RpcHost: host, RpcPort: port, RpcTimeout: 5, RpcRetries: 1,
-			MaxShardSize: maxZ, MaxShardPointCount: maxC, MaxSearchLimit: 75,
-			ShardManager: cluster.ShardManagerConfig{RootDir: root, ShardTimeout: 60, MaxCacheSize: -1},
-		})
+		mkNode := func() (*cluster.ClusterNode, error) {
+			return cluster.NewNode(cluster.ClusterNodeConfig{
+				RootDir: root,
+				Servers: []string{fmt.Sprintf("%s:%d", host, port)},
+				RpcHost: host, RpcPort: port, RpcTimeout: 5, RpcRetries: 1,
+				MaxShardSize: maxZ, MaxShardPointCount: maxC, MaxSearchLimit: 75,
+				ShardManager: cluster.ShardManagerConfig{RootDir: root, ShardTimeout: 60, MaxCacheSize: -1},
+			})
+		}
+		node, err := mkNode()
 		if err != nil {
 			return fmt.Errorf("new node: %w", err)
 		}
 		h := &hist{hang: o.Hang, tw: tw, rng: rng, node: node, users: []string{"al", "alice"},
-			plans: map[string]models.UserPlan{}, known: map[string][]uuid.UUID{}, big: o.Big}
+			plans: map[string]models.UserPlan{}, known: map[string][]uuid.UUID{}, big: o.Big, root: root}
+		h.installHooks()
 		for _, u := range h.users {
 			h.plans[u] = models.UserPlan{Name: "T", MaxCollections: 1 + rng.Intn(3),
 				MaxCollectionPointCount: int64(3 + rng.Intn(18)), MaxPointSize: 100000,
@@ -450,7 +512,7 @@ func RunE2E(tw *trace.Writer, o E2EOpts) error {
 				return fmt.Errorf("history %d step %d: %w", hi, s, err)
 			}
 		}
-		if err := node.Close(); err != nil {
+		if err := h.node.Close(); err != nil {
 			return fmt.Errorf("close node: %w", err)
 		}
 	}
@@ -478,6 +540,8 @@ func (h *hist) step() error {
 		return h.deleteCol(u, cols[h.rng.Intn(len(cols))])
 	case r < 38 && !h.big:
 		return h.createRace(u)
+	case r < 44 && !h.big:
+		return h.sickInsert(u, cols[h.rng.Intn(len(cols))].Id)
 	default:
 		return h.insert(u, cols[h.rng.Intn(len(cols))].Id)
 	}
@@ -536,6 +600,66 @@ func (h *hist) createRace(u string) error {
 		reqs = append(reqs, M{"c": c, "res": res, "msg": msg})
 	}
 	h.tw.Emit("CreateRace", M{"u": u, "maxCols": plan.MaxCollections, "reqs": reqs, "state": st})
+	return nil
+}
+
+// sickInsert: an insert request while one shard of the collection cannot be
+// opened (a directory sits in the place of its file; every shard was unloaded
+// first, through the substituted idle timers of hook H3). What the other shards hold still counts: a request beyond
+// the point quota is refused (or fails) and changes nothing. The file is put
+// back before the state is observed.
+func (h *hist) sickInsert(u, c string) error {
+	plan := h.plans[u]
+	col, err := h.node.GetCollection(u, c)
+	if err != nil {
+		return fmt.Errorf("get collection: %w", err)
+	}
+	if len(col.ShardIds) < 2 {
+		return h.insert(u, c)
+	}
+	col.UserPlan = plan
+	infos, err := h.node.GetShardsInfo(col)
+	if err != nil {
+		return err
+	}
+	total := int64(0)
+	for _, si := range infos {
+		total += si.PointCount
+	}
+	left := int(plan.MaxCollectionPointCount - total)
+	n := []int{left + 1, left + 1, left + 2 + h.rng.Intn(3), 1, left}[h.rng.Intn(5)]
+	if n < 1 {
+		n = 1
+	}
+	if err := h.unloadAll(); err != nil {
+		return err
+	}
+	k := h.rng.Intn(len(col.ShardIds))
+	file := filepath.Join(h.root, cluster.USERCOLSDIR, u, c, col.ShardIds[k], "sharddb.bbolt")
+	if _, err := os.Stat(file); err != nil {
+		return fmt.Errorf("shard file: %w", err)
+	}
+	if err := os.Rename(file, file+".aside"); err != nil {
+		return err
+	}
+	if err := os.Mkdir(file, 0o755); err != nil {
+		return err
+	}
+	points := make([]models.Point, n)
+	for i := range points {
+		points[i] = h.point(h.newID())
+	}
+	_, ierr := h.node.InsertPoints(col, points)
+	os.Remove(file)
+	if err := os.Rename(file+".aside", file); err != nil {
+		return err
+	}
+	res, msg := outcome(ierr)
+	st, oerr := h.observe()
+	if oerr != nil {
+		return oerr
+	}
+	h.tw.Emit("SickInsert", M{"u": u, "c": c, "n": n, "maxPts": plan.MaxCollectionPointCount, "sick": k + 1, "res": res, "msg": msg, "state": st})
 	return nil
 }
 
